@@ -461,3 +461,50 @@ Proof. intros [Hs Hl]. eapply q_fifo_legal_conservation; [exact Hs|exact Hl]. Qe
    q_fifo_step); stated for the record on the step function *)
 Lemma q_fifo_nil_iff_empty (s : list Z) : snd (q_fifo_step s QPop) = QRPop None <-> s = [].
 Proof. destruct s; cbn; split; intros H; try reflexivity; discriminate. Qed.
+
+(* ------------------------------------------------------------------ the definition refuses *)
+(* Push 1 by thread 0 has returned; then thread 1 calls Pop and gets nil.  Not linearizable:
+   legality alone would accept S = Pop -> nil; Push 1, it is the real-time clause that forbids
+   it. *)
+Definition q_bad_history : qhist :=
+  [HInv 0 (QPush 1%Z); HRes 0 QRPush; HInv 1 QPop; HRes 1 (QRPop None)].
+
+Lemma q_hw_rejects_stale_nil : ~ hw_linearizable q_bad_history (q_fifo_spec []).
+Proof.
+  intros (Hwf & H' & S & (ext & -> & Hres & Hwf') & (Hseq & Hleg) & Heq & Hrt).
+  assert (Hext : ext = []).
+  { destruct ext as [|e ext]; [reflexivity|]. exfalso.
+    inversion Hres as [|? ? He _]; subst. destruct e as [t o|t r]; [contradiction|].
+    specialize (Hwf' t). rewrite hw_proj_app in Hwf'. unfold hw_proj in Hwf'.
+    cbn [filter hw_thread q_bad_history] in Hwf'. rewrite Nat.eqb_refl in Hwf'.
+    destruct t as [|[|t]]; cbn in Hwf'; discriminate. }
+  subst ext. rewrite app_nil_r in *.
+  change (hw_complete q_bad_history) with q_bad_history in Heq.
+  assert (Hinv : hw_invoked S (1, 0)).
+  { unfold hw_invoked, hw_inv_pos. cbn [fst snd]. apply hw_find_some.
+    rewrite hw_count_inv_proj, <- (Heq 1). vm_compute. lia. }
+  assert (Hp : hw_precedes q_bad_history (0, 0) (1, 0)) by (exists 1, 2; vm_compute; repeat split; lia).
+  destruct (Hrt _ _ Hp Hinv) as (i & j & Hi & Hj & Hij).
+  inversion Hseq as [|t o r S1 Hseq1]; subst.
+  - specialize (Heq 0). discriminate Heq.
+  - destruct t as [|[|t]].
+    + pose proof (Heq 0) as H0. unfold hw_proj in H0. cbn [filter hw_thread q_bad_history Nat.eqb] in H0.
+      inversion H0 as [[Ho Hr H0']]. subst o r.
+      cbn [hw_legal_from hw_init q_fifo_spec hw_step q_fifo_step fst snd app] in Hleg.
+      destruct Hleg as [_ Hleg].
+      inversion Hseq1 as [|t' o' r' S2 Hseq2]; subst.
+      * specialize (Heq 1). discriminate Heq.
+      * destruct t' as [|[|t']].
+        -- cbn [filter hw_thread Nat.eqb] in H0'. discriminate H0'.
+        -- pose proof (Heq 1) as H1. unfold hw_proj in H1. cbn [filter hw_thread q_bad_history Nat.eqb] in H1.
+           inversion H1 as [[Ho Hr H1']]. subst o' r'.
+           cbn [hw_legal_from hw_step q_fifo_spec q_fifo_step fst snd] in Hleg.
+           destruct Hleg as [Hr _]. discriminate Hr.
+        -- specialize (Heq (S (S t'))). unfold hw_proj in Heq.
+           cbn [filter hw_thread q_bad_history] in Heq. rewrite Nat.eqb_refl in Heq.
+           cbn [Nat.eqb] in Heq. discriminate Heq.
+    + unfold hw_inv_pos in Hj. cbn in Hj. inversion Hj; subst. lia.
+    + specialize (Heq (S (S t))). unfold hw_proj in Heq.
+      cbn [filter hw_thread q_bad_history] in Heq. rewrite Nat.eqb_refl in Heq.
+      cbn [Nat.eqb] in Heq. discriminate Heq.
+Qed.
